@@ -188,7 +188,7 @@ prop('C05',
      scenarios=lambda tier: [sc('conc'), sc('concfree', race=1)],
      diverge={'U': {'accept', 'post'}, 'LIN': {'smallstep'}},
      nontrivial_line=lambda k, line: k == 'LIN',
-     rule='controlled schedules on ONE shared Witness (as in production): every request is parked before it starts, before each storage call and after each storage read (wrapper around LogStatePersistence) and released by a scheduler; depth-first enumeration of interleavings of 2 and 3 requests (bounded), the one-preemption family (a request runs to its k-th yield point, the others run to completion in every order, it finishes) and random schedules for conflicting first use, first-use fork, forks from the same old size, growth vs refresh, growth vs growth, different logs, update vs read, on the in-memory store and on file-backed SQLite through database/sql with the production pool size (blocked Begin = thread in flight); plus free-running rounds of 6-9 goroutines, also from a build with the Go race detector (any report is a violation); on the in-memory store the small-step model of the storage protocol (Model/StoreProtocol.lean, the system of theorem C05_linearizable_inmem) is replayed on the schedule that actually ran and must predict every request outcome and the final value; monitor: a sequential order compatible with real time exists in which the model of the sequential witness gives every request its outcome (storage errors only for overlapping writes, no effect), final state = replayed state; non-trivial = one LIN record per execution',
+     rule='controlled schedules on ONE shared Witness (as in production): every request is parked before it starts, before each storage call and after each storage read (wrapper around LogStatePersistence) and released by a scheduler; depth-first enumeration of interleavings of 2 and 3 requests (bounded), the one-preemption family (a request runs to its k-th yield point, the others run to completion in every order, it finishes) and random schedules for conflicting first use, first-use fork, forks from the same old size, growth vs refresh, growth vs growth, different logs, update vs read, on the in-memory store and on file-backed SQLite through database/sql with the production pool size (blocked Begin = thread in flight); plus free-running rounds of 6-9 goroutines, also from a build with the Go race detector (any report is a violation); on the in-memory store the small-step model of the storage protocol (Model/StoreProtocol.lean, the system of theorem C05_linearizable_inmem) is replayed on the schedule that actually ran and must predict every request outcome and the final value; on SQLite the single-connection system of theorem C05_linearizable_sql (Lin.stepSql) is replayed on the scheduler-released events (a request owns the connection from its read inside the transaction to its Set/Close; a second reader inside a transaction while the first still owns it is a divergence) and must predict the same; monitor: a sequential order compatible with real time exists in which the model of the sequential witness gives every request its outcome (storage errors only for overlapping writes, no effect), final state = replayed state; non-trivial = one LIN record per execution',
      assumptions=['atomicity of a single storage call (Go mutex / SQLite locking) and the Go memory model are runtime facts, exercised only'],
      exhaustive=True)
 
